@@ -336,6 +336,48 @@ static long pgen_L5 (PgenCb cb, void *user)
     cb (&p, user);
     count++;
   }
+  /* many arrays with resampled sources: the offset registers of ldres* come on top of the 12 array pointers, so that
+   * pointers spill to the executor structure (the only 64-bit immediate-to-memory updates the x86 back ends emit) */
+  {
+    int k, lin, lastfirst;
+    /* lastfirst: the resampled sources are the last declared ones (the first to lose their registers) */
+    for (lastfirst = 0; lastfirst < 2; lastfirst++) for (lin = 0; lin < 2; lin++) for (k = 1; k <= 3; k++) {
+      VProg p;
+      int d[4], s[8], t[3], c0, c1, i;
+      memset (&p, 0, sizeof (p));
+      for (i = 0; i < 4; i++) d[i] = vprog_addvar (&p, VK_D, 4);
+      if (lastfirst) for (i = 7; i >= 0; i--) s[i] = vprog_addvar (&p, VK_S, 4);
+      else for (i = 0; i < 8; i++) s[i] = vprog_addvar (&p, VK_S, 4);
+      for (i = 0; i < k; i++) t[i] = vprog_addvar (&p, VK_T, 4);
+      c0 = vprog_addvar (&p, VK_C, 4); p.v[c0].cval = 0;
+      c1 = vprog_addvar (&p, VK_C, 4); p.v[c1].cval = 0x10000;
+      for (i = 0; i < k; i++) vprog_addinsn (&p, lin ? "ldreslinl" : "ldresnearl", 0, 4, t[i], s[i], c0, c1);
+      /* resampled sources are s1..sk; the plain operands come from the other sources only */
+      for (i = 0; i < 4; i++) vprog_addinsn (&p, "addl", 0, 3, d[i], i < k ? t[i] : s[k + (2 * i) % (8 - k)], s[k + (2 * i + 1) % (8 - k)], -1);
+      pg_name (&p, "L5r", count);
+      cb (&p, user);
+      count++;
+    }
+  }
+  /* a source that is resampled and also read directly */
+  {
+    int lin;
+    for (lin = 0; lin < 2; lin++) {
+      VProg p;
+      int d, s, t, c0, c1;
+      memset (&p, 0, sizeof (p));
+      d = vprog_addvar (&p, VK_D, 4);
+      s = vprog_addvar (&p, VK_S, 4);
+      t = vprog_addvar (&p, VK_T, 4);
+      c0 = vprog_addvar (&p, VK_C, 4); p.v[c0].cval = 0;
+      c1 = vprog_addvar (&p, VK_C, 4); p.v[c1].cval = 0x10000;
+      vprog_addinsn (&p, lin ? "ldreslinl" : "ldresnearl", 0, 4, t, s, c0, c1);
+      vprog_addinsn (&p, "addl", 0, 3, d, t, s, -1);
+      pg_name (&p, "L5m", count);
+      cb (&p, user);
+      count++;
+    }
+  }
   /* constant n: every n in 1..70 for a byte and a word program, 1-D and 2-D with constant m */
   for (sz = 1; sz <= 4; sz *= 2) {
     for (cn = 1; cn <= 70; cn++) {
